@@ -323,9 +323,12 @@ class RestoreProbe(Contract):
     qualname = 'Restorer.restore_trashed_file'
 
     def apply(self, V, a):
-        V.ctx.ghost.setdefault('restore_calls', []).append(
-            (a['trashed_file'], a['overwrite']))
+        calls = V.ctx.ghost.setdefault('restore_calls', [])
+        if V.ctx.ghost.get('restore_failed'):
+            V.ctx.ghost['restore_after_failure'] = True
+        calls.append((a['trashed_file'], a['overwrite']))
         if V.ctx.choose(2, 'restore-outcome') == 1:
+            V.ctx.ghost['restore_failed'] = True
             raise PyExc(V.I.make_exc('OSError', 'Refusing to overwrite'))
         return None
 
@@ -492,6 +495,14 @@ def pipeline_vc(S, prefix='pipeline'):
                            z3.BoolVal(outcome == ('exit', 1) or outcome in (
                                'ValueError',)),
                            info={'outcome': repr(outcome)})
+        if ctx.ghost.get('restore_failed'):
+            ctx.oblige(prefix + '/a-refused-entry-stops-the-run-with-exit-1',
+                       z3.BoolVal(outcome == ('exit', 1) and
+                                  not ctx.ghost.get('restore_after_failure')),
+                       info={'outcome': repr(outcome)})
+            errs = [e for e in ctx.events if e[0] == 'print' and e[1] == 'stderr']
+            ctx.oblige(prefix + '/a-refusal-is-reported-on-stderr',
+                       z3.BoolVal(len(errs) >= 1))
         ctx.cover(prefix + '/cover-end')
 
     def hook(I_, fv, vals):
